@@ -574,6 +574,13 @@ func runConvert(name string) (fails []fail, obs string) {
 	if xo, isObj := x.(tengo.Object); isObj && obj != xo {
 		add("convert/from/"+gv.Kind, "an Object must be passed through unchanged (no type conversion performed); got a different object")
 	}
+	// every conversion builds fresh containers: no mutable state is shared between
+	// two conversions, and writing into one result leaves the next one intact
+	if _, isObj := x.(tengo.Object); !isObj {
+		if what := freshness(gv, obj, ws); what != "" {
+			add("convert/from/"+gv.Kind, what)
+		}
+	}
 	// back
 	expGo, _ := nf(gv.Mk())
 	es := renderGo(expGo, false)
@@ -626,6 +633,94 @@ func runConvert(name string) (fails []fail, obs string) {
 		}
 	}
 	return fails, "ok:" + obj.TypeName()
+}
+
+// containers lists the mutable containers (arrays, maps) reachable from o.
+func containers(o tengo.Object, acc *[]tengo.Object, depth int) {
+	if depth > 16 {
+		return
+	}
+	switch x := o.(type) {
+	case *tengo.Array:
+		*acc = append(*acc, x)
+		for _, e := range x.Value {
+			containers(e, acc, depth+1)
+		}
+	case *tengo.Map:
+		*acc = append(*acc, x)
+		for _, e := range x.Value {
+			containers(e, acc, depth+1)
+		}
+	case *tengo.ImmutableArray:
+		for _, e := range x.Value {
+			containers(e, acc, depth+1)
+		}
+	case *tengo.ImmutableMap:
+		for _, e := range x.Value {
+			containers(e, acc, depth+1)
+		}
+	case *tengo.Error:
+		containers(x.Value, acc, depth+1)
+	}
+}
+
+const sentinelKey = "\x00c15-sentinel"
+
+func freshness(gv GV, obj tengo.Object, ws string) (what string) {
+	defer func() {
+		if r := recover(); r != nil {
+			what = "freshness probe panicked: " + clip(fmt.Sprint(r), 200)
+		}
+	}()
+	var c1, c2 []tengo.Object
+	containers(obj, &c1, 0)
+	if len(c1) == 0 {
+		return ""
+	}
+	o2, err, pan := safeFrom(gv.Mk())
+	if err != nil || pan != "" {
+		return fmt.Sprintf("a second conversion of an equal value failed: %v %s", err, pan)
+	}
+	containers(o2, &c2, 0)
+	for _, a := range c1 {
+		for _, b := range c2 {
+			if a == b {
+				return "two separate conversions of equal Go values share a mutable container (" + clip(val.Snapshot(a), 80) + "): a script writing into one variable changes the other"
+			}
+		}
+	}
+	// write into every container of the first result, convert again, undo
+	for _, c := range c1 {
+		switch x := c.(type) {
+		case *tengo.Array:
+			x.Value = append(x.Value, &tengo.Int{Value: 777})
+		case *tengo.Map:
+			if x.Value != nil {
+				x.Value[sentinelKey] = &tengo.Int{Value: 777}
+			}
+		}
+	}
+	o3, err, pan := safeFrom(gv.Mk())
+	got := val.Snapshot(o3)
+	for _, c := range c1 {
+		switch x := c.(type) {
+		case *tengo.Array:
+			if n := len(x.Value); n > 0 {
+				x.Value = x.Value[:n-1]
+			}
+		case *tengo.Map:
+			if x.Value != nil {
+				delete(x.Value, sentinelKey)
+			}
+		}
+	}
+	if err != nil || pan != "" {
+		return fmt.Sprintf("a conversion after writing into an earlier result failed: %v %s", err, pan)
+	}
+	if got != ws {
+		return "after writing into an earlier conversion result, converting an equal Go value gives " + clip(got, 200) + ", documented " + clip(ws, 200)
+	}
+	return ""
 }
 
 var gvIndex map[string]GV
